@@ -121,17 +121,22 @@ def furigana_case(ctx, r):
     class GF: pass
     gf = GF(); gf.tool, gf.kind, gf.msg_mode = 'msg', 'msg', None
     gf.game = r.pick(['th12', 'th13', 'th14', 'th15', 'th16', 'th17'])
-    lines = []
-    for k in range(r.randint(3, 9)):
-        if r.chance(0.25): lines.append('+%d:' % r.randint(1, 30))
-        if r.chance(0.25): lines.append('lab%d:' % k)
-        if r.chance(0.15): lines.append('ins_%d();' % r.pick([1, 2, 3]))
-        txt = ''.join(r.pick('abcdefghijklmno ') for _ in range(r.randint(0, 24)))
-        if r.chance(0.45): txt = '|' + r.pick(['0,6,', '1,2,', '']) + ''.join(r.pick('abcdefghij') for _ in range(r.randint(1, 40)))
-        lines.append('ins_%d("%s");' % (r.pick([15, 16, 17]), txt))
-    lines.append('lab_end:')
-    lines.append('ins_0();')
-    gf.text = 'meta { table: {0: {script: "s0"}} }\nscript s0 {\n%s\n}\n' % '\n'.join(lines)
+    # one to three scripts; a script may *end* on a furigana line, so that the pending bytes would have to cross into the next script
+    nscripts = r.randint(1, 3)
+    scripts = []
+    for sidx in range(nscripts):
+        lines = []
+        for k in range(r.randint(2, 8)):
+            if r.chance(0.25): lines.append('+%d:' % r.randint(1, 30))
+            if r.chance(0.25): lines.append('lab%d_%d:' % (sidx, k))
+            if r.chance(0.15): lines.append('ins_%d();' % r.pick([1, 2, 3]))
+            txt = ''.join(r.pick('abcdefghijklmno ') for _ in range(r.randint(0, 24)))
+            if r.chance(0.45): txt = '|' + r.pick(['0,6,', '1,2,', '']) + ''.join(r.pick('abcdefghij') for _ in range(r.randint(1, 40)))
+            lines.append('ins_%d("%s");' % (r.pick([15, 16, 17]), txt))
+        if r.chance(0.5): lines.append('ins_%d("|%s");' % (r.pick([15, 16, 17]), ''.join(r.pick('abcdefghij') for _ in range(r.randint(1, 30)))))   # ends on furigana
+        if r.chance(0.5): lines.append('lab_end%d:' % sidx); lines.append('ins_0();')
+        scripts.append('script s%d {\n%s\n}\n' % (sidx, '\n'.join(lines)))
+    gf.text = 'meta { table: {%s} }\n%s' % (', '.join('%d: {script: "s%d"}' % (i, i) for i in range(nscripts)), ''.join(scripts))
     c, data, dbg = compile_with_debug(ctx, gf.tool, gf.game, gf.text)
     ctx.evaluations += 1
     replay = {'text': gf.text, 'tool': gf.tool, 'game': gf.game}
